@@ -657,10 +657,15 @@ func (in *Interp) intrinsic(fr *Frame, name string, args []Value, fn *ssa.Functi
 	case repoPrefix + "/timelib.Strtotime":
 		in.note("stub: timelib.Strtotime (C library behind cgo) returns an arbitrary value")
 		return in.uninterp(name, SBV(64), args, types.Typ[types.Int64])
+	case "time.runtimeNano":
+		return int64(0)
 	case "runtime/debug.Stack":
 		return Slice{}
 	case "os.Getenv":
 		return ""
+	}
+	if in.lenient > 0 && fn != nil {
+		return zeroResult(fn)
 	}
 	panic(pathAbort{"unsupported: call to " + name})
 }
